@@ -154,6 +154,8 @@ pub static MLOCK_CALLS: AtomicU64 = AtomicU64::new(0);
 /// refuse the k-th (1-based) and every later call when > 0
 pub static MLOCK_REFUSE_FROM: AtomicI64 = AtomicI64::new(0);
 pub static MLOCK_REFUSED: AtomicU64 = AtomicU64::new(0);
+/// errno reported by a refused call (ENOMEM, EAGAIN, EPERM are what mlock(2) documents)
+pub static MLOCK_ERRNO: AtomicI64 = AtomicI64::new(libc::ENOMEM as i64);
 
 /// Interposes libc's mlock for the whole (statically linked) harness binary: dryoc's call resolves
 /// here. Forwards to the real system call unless the fault plan says to refuse.
@@ -163,7 +165,7 @@ pub unsafe extern "C" fn mlock(addr: *const libc::c_void, len: libc::size_t) -> 
     let from = MLOCK_REFUSE_FROM.load(Ordering::SeqCst);
     if from > 0 && n as i64 >= from {
         MLOCK_REFUSED.fetch_add(1, Ordering::SeqCst);
-        *libc::__errno_location() = libc::ENOMEM;
+        *libc::__errno_location() = MLOCK_ERRNO.load(Ordering::SeqCst) as libc::c_int;
         return -1;
     }
     libc::syscall(libc::SYS_mlock, addr, len) as libc::c_int
